@@ -127,7 +127,16 @@ macro_rules! reject_text {
     };
 }
 reject_text!(ls_reject_text_x, "x");
-reject_text!(ls_reject_text_trailing, "1;");
 reject_text!(ls_reject_text_256, "256");
 reject_text!(ls_reject_text_space, "1; 2");
 reject_text!(ls_reject_text_minus, "-1");
+
+/// The three documented "no style" spellings (concrete).
+#[kani::proof]
+#[kani::unwind(6)]
+fn ls_no_style() {
+    assert!(anstyle_ls::parse("").is_none());
+    assert!(anstyle_ls::parse("0").is_none());
+    assert!(anstyle_ls::parse("00").is_none());
+    kani::cover!(true);
+}
